@@ -29,6 +29,7 @@ type modEntry struct {
 	Ref  string
 	All  bool
 	Src  string
+	Site ssa.Value // allocation site (fresh allocations of the function being verified)
 }
 
 func (e modEntry) matches(comp string) bool { return e.Comp == comp }
@@ -40,6 +41,7 @@ type loopInfo struct {
 	spec    *LoopSpec
 	items   []modEntry
 	allocLE string
+	threshold string // objects allocated after this point may be written in the loop without declaration
 	touched []string
 	parent  *loopInfo
 	// state at header after havoc (for decreases)
@@ -87,12 +89,15 @@ type Act struct {
 	allocE   string
 	label    string // prefix for obligation labels when inlined
 	callCnt  map[string]int
+	callOrd  map[ssa.Instruction]int // k-th call of the same callee in source order
 	dry      bool
 	cur      *State
 	curBlk   *ssa.BasicBlock
 	curIdx   int
 	unsupported []string
 	parentAct   *Act
+	escape      *escapeInfo
+	curSite     ssa.Value
 	freshAllocs []modEntry // objects allocated by this activation tree (root only)
 	outerLoop   *loopInfo
 	inlCnt      map[string]int
@@ -130,6 +135,27 @@ func shortFile(f string) string {
 
 func (a *Act) analyse() {
 	fn := a.fn
+	// number the calls of each callee in source order (labels f#k in contracts)
+	a.callOrd = map[ssa.Instruction]int{}
+	byKey := map[string][]ssa.Instruction{}
+	for _, b := range fn.Blocks {
+		for _, in := range b.Instrs {
+			ci, ok := in.(ssa.CallInstruction)
+			if !ok {
+				continue
+			}
+			if callee := ci.Common().StaticCallee(); callee != nil {
+				k := relName(callee)
+				byKey[k] = append(byKey[k], in)
+			}
+		}
+	}
+	for _, ins := range byKey {
+		sort.SliceStable(ins, func(i, j int) bool { return ins[i].Pos() < ins[j].Pos() })
+		for i, in := range ins {
+			a.callOrd[in] = i + 1
+		}
+	}
 	a.loops = map[*ssa.BasicBlock]*loopInfo{}
 	a.inLoop = map[*ssa.BasicBlock]*loopInfo{}
 	// back edges: u -> h with h dominating u
@@ -167,6 +193,10 @@ func (a *Act) analyse() {
 		// use the loop statement position: smallest valid pos among instrs of header and its body
 		for blk := range a.loops[b].blocks {
 			for _, in := range blk.Instrs {
+				switch in.(type) {
+				case *ssa.Phi, *ssa.DebugRef:
+					continue // carry the position of the variable's declaration, not of the loop
+				}
 				if p := in.Pos(); p.IsValid() && (best == token.NoPos || p < best) {
 					best = p
 				}
@@ -182,6 +212,9 @@ func (a *Act) analyse() {
 		return hs[i].Index < hs[j].Index
 	})
 	for i, h := range hs {
+		if debugReachAll && a.mode == modeVerify {
+			fmt.Printf("   loop %d of %s: header b%d at %s\n", i+1, relName(a.fn), h.Index, a.posOf(pos(h)))
+		}
 		a.loops[h].ord = i + 1
 		if a.contract != nil {
 			a.loops[h].spec = a.contract.Loops[i+1]
@@ -483,14 +516,24 @@ func (a *Act) enterLoop(li *loopInfo, st *State) *State {
 	}
 	// 2. loop modifies items (evaluated in the loop-entry state)
 	li.items = nil
+	// Without an explicit loop modifies clause (or with the item "fresh") everything allocated since
+	// the function was entered may change in the loop; with one, only the listed locations, this
+	// function's own allocation sites and objects allocated during the loop may.
+	li.threshold = a.root().allocE
 	if li.spec != nil && li.spec.HasModifies {
 		env := a.headerEnv(li, entryPhis, st)
 		li.items = a.evalModItems(li.spec.Modifies, env)
+		li.threshold = li.allocLE
+		for _, it := range li.spec.Modifies {
+			if it.Fresh {
+				li.threshold = a.root().allocE
+			}
+		}
 	} else if a.hasMods {
 		li.items = append(li.items, a.funcMods...)
 	}
-	// objects allocated by this very function may be written without declaration: they
-	// are covered by the "allocated after function entry" alternative of the frame rule
+	// objects allocated earlier by this very function may be written without declaration
+	li.items = append(li.items, a.root().freshAllocs...)
 	// 3. invariants hold on entry
 	if li.spec != nil && !a.dry {
 		env := a.headerEnv(li, entryPhis, st)
@@ -536,12 +579,12 @@ func (a *Act) enterLoop(li *loopInfo, st *State) *State {
 				}
 			}
 		}
-		if all || !strings.HasPrefix(string(s), "(Array Int ") {
+		if all || !strings.HasPrefix(string(s), "(Array Int ") || strings.HasPrefix(c, "ghost:chan.") {
 			nst.mem.m[c] = a.vc.declareHeap("hv_"+c, s, nst.mem.m["alloc"])
 			continue
 		}
 		hv := a.vc.declareHeap("hv_"+c, s, nst.mem.m["alloc"])
-		conds := []string{app("<=", "r!f", a.root().allocE)}
+		conds := []string{app("<=", "r!f", li.threshold)}
 		for _, r := range refs {
 			conds = append(conds, not(app("=", "r!f", r)))
 		}
